@@ -2,9 +2,11 @@
 # usage: check.sh <property> <tier>
 # Rebuilds the engine if needed (offline), then decides the property on /repo's
 # current working tree. Exit 0 held / 1 VIOLATION / 2 inconclusive.
+D=$(cd "$(dirname "$0")" && pwd)
 export GOFLAGS=-mod=mod GOPROXY=off
 unset GOTOOLCHAIN
-cd /verif/engine || exit 2
-go build -o /verif/bin/gosmt ./cmd/gosmt || { echo "INCONCLUSIVE property=$1: engine build failed"; exit 2; }
-cd /verif || exit 2
-exec /verif/bin/gosmt check --property "$1" --tier "$2"
+export VERIF_DIR=${VERIF_DIR:-$D}
+cd "$D/engine" || exit 2
+go build -o "$D/bin/gosmt" ./cmd/gosmt || { echo "INCONCLUSIVE property=$1: engine build failed"; exit 2; }
+cd "$D" || exit 2
+exec "$D/bin/gosmt" check --property "$1" --tier "$2"
